@@ -11,6 +11,7 @@
 -/
 import GormModel.Model.AssocScope
 import GormModel.Gen.AssocScopeFacts
+import GormModel.Gen.DeleteAssocFacts
 namespace Gorm
 open AssocScope
 
@@ -178,5 +179,47 @@ example : finisherUnscoped false true ["Session{NewDB: true}", "Session{}", "Mod
 
 /-- an explicit `Unscoped()` on the chain forces the flag -/
 example : finisherUnscoped false false ["Model", "Unscoped", "Delete"] = true := by decide
+
+/-! ## `db.Select("Rel").Delete(&owner)`: callbacks/delete.go DeleteBeforeAssociations -/
+
+/-- the arms of this tree (regenerated): both delete on a NewDB session; the has-one/has-many arm hands Unscoped on by hand,
+    the many2many arm does not -/
+theorem C08_delete_assoc_arms_current_tree :
+    Gen.deleteAssocFound = true ∧
+    Gen.deleteAssocArms.map (fun a => (a.arm, a.newDB, a.deletes)) =
+      [("schema.HasOne, schema.HasMany", true, true), ("schema.Many2Many", true, true)] ∧
+    (∀ a ∈ Gen.deleteAssocArms, a.arm = "schema.HasOne, schema.HasMany" → a.copiesUnscoped = true) := by
+  decide
+
+/-- **PARTIAL**: the nested Delete sees the user's flag on every arm that copies it, and on every arm when
+    Config.PropagateUnscoped is set; a scoped Delete stays scoped on every arm (the related rows are marked, never removed).
+    The extra hypothesis `propagate ∨ copiesUnscoped` is exactly the negation of finding F33's pattern. -/
+theorem C08_delete_assoc_partial (p u : Bool) :
+    ∀ a ∈ Gen.deleteAssocArms, (p = true ∨ a.copiesUnscoped = true) →
+      nestedDeleteUnscoped p u a.newDB a.copiesUnscoped = u := by
+  intro a _ h
+  cases u <;> cases hp : p <;> cases hc : a.copiesUnscoped <;> cases a.newDB <;> simp_all [nestedDeleteUnscoped]
+
+theorem C08_delete_assoc_scoped_stays_scoped (p : Bool) :
+    ∀ a ∈ Gen.deleteAssocArms, nestedDeleteUnscoped p false a.newDB a.copiesUnscoped = false := by
+  intro a _
+  cases p <;> cases a.copiesUnscoped <;> cases a.newDB <;> simp [nestedDeleteUnscoped]
+
+/-- … in particular the has-one / has-many arm of this tree: `db.Unscoped().Select("Pets").Delete(&owner)` removes the pets
+    physically, `db.Select("Pets").Delete(&owner)` marks them -/
+theorem C08_delete_assoc_hasmany (p u : Bool) :
+    ∀ a ∈ Gen.deleteAssocArms, a.arm = "schema.HasOne, schema.HasMany" →
+      deleteKind (nestedDeleteUnscoped p u a.newDB a.copiesUnscoped) = deleteKind u := by
+  intro a ha harm
+  rw [C08_delete_assoc_partial p u a ha (Or.inr (C08_delete_assoc_arms_current_tree.2.2 a ha harm))]
+
+/-- **FINDING F33 (kernel-checked on the regenerated arm)**: the many2many arm builds its handle on a NewDB session and does not
+    copy Unscoped: under `db.Unscoped().Select("Teams").Delete(&owner)` (default config) the Delete of the link rows is a SCOPED
+    one — for a soft-deletable join model the link rows are marked instead of removed, and already marked links are not reached. -/
+theorem C08_delete_assoc_m2m_counterexample :
+    ∃ a ∈ Gen.deleteAssocArms, a.arm = "schema.Many2Many" ∧
+      nestedDeleteUnscoped false true a.newDB a.copiesUnscoped = false ∧
+      deleteKind (nestedDeleteUnscoped false true a.newDB a.copiesUnscoped) = .mark := by
+  decide
 
 end Gorm
